@@ -264,11 +264,11 @@ def execute(sc, sched: Choices, cls, cfg):
                 add(check, kind, compare.short(ref[1]), d)
 
         if fault is None:
-            ctxa = executor.SimContext(sched=sched, workers=st["workers"], cpu_count=st["cpu"], monitor=True)
+            ctxa = executor.SimContext(sched=sched, workers=st["workers"], cpu_count=st["cpu"], monitor=True, preempt=st.get("preempt", False))
             ra, info = _execute(ds, lay, st, op, sort, ctxa, holder=holda)
             features["key_repr"] = info.get("repr", "?")
             judge("strategy_vs_baseline", ra, base)
-            ctxb = executor.SimContext(sched=sched, workers=st["workers"], cpu_count=st["cpu"])
+            ctxb = executor.SimContext(sched=sched, workers=st["workers"], cpu_count=st["cpu"], preempt=st.get("preempt", False))
             rb, _ = _execute(ds, lay, st, op, sort, ctxb, holder=holdb)
             if ra[0] != "refused":
                 judge("schedule_vs_schedule", rb, ra)
@@ -329,10 +329,14 @@ def execute(sc, sched: Choices, cls, cfg):
             if any(p[0] == "_apply_group_method_single_chunk" and p[1] >= 2 for p in c.pools):
                 probes.add("blocks_gt1")
                 differs_from_baseline = True
+            rec["n_preemptions"] = rec.get("n_preemptions", 0) + c.stats.get("preemptions", 0)
+            if c.preempt_sites:
+                rec.setdefault("preempt_sites", set()).update(c.preempt_sites)
             if c.hazards:
                 probes.add("hazard_task_wrote_argument")
                 rec.setdefault("hazards", []).extend([list(map(str, h)) for h in c.hazards[:2]])
 
+    rec["preempt_sites"] = sorted(rec.get("preempt_sites", ()))
     rec["probes"] = sorted(probes)
     rec["nontrivial"] = bool(differs_from_baseline and ngroups_present >= 2 and max_tasks >= 2 and not_fifo)
     ds = ds_full
